@@ -56,6 +56,14 @@ pub(crate) struct RouterSocket {
   held_count: AtomicUsize,
   /// Signalled whenever a pipe finalizes, releasing any held batches.
   identity_finalized_notify: Arc<Notify>,
+  /// Socket type the peer behind a pipe announced, remembered at finalization: the delimiter
+  /// rule needs it, and the endpoint record is gone by the time a departed peer's last messages
+  /// are read.
+  pipe_peer_type: DashMap<usize, Option<String>>,
+  /// Finalized pipes whose connection has gone while messages from them may still be queued for
+  /// the application. Their identity / peer-type / finalized entries are kept until this bounded
+  /// list evicts them, so that those messages are still delivered, under the right identity.
+  departed_pipes: ParkingMutex<VecDeque<usize>>,
 }
 
 impl RouterSocket {
@@ -75,6 +83,8 @@ impl RouterSocket {
       held_ingress: ParkingMutex::new(HashMap::new()),
       held_count: AtomicUsize::new(0),
       identity_finalized_notify: Arc::new(Notify::new()),
+      pipe_peer_type: DashMap::new(),
+      departed_pipes: ParkingMutex::new(VecDeque::new()),
     }
   }
 
@@ -228,7 +238,14 @@ impl RouterSocket {
         .get(&pipe_read_id)
         .and_then(|uri| core_s.endpoints.get(uri))
         .and_then(|ep_info| ep_info.peer_socket_type.clone())
-    };
+    }
+    .or_else(|| {
+      // the connection is gone already: use what it announced when it was finalized
+      self
+        .pipe_peer_type
+        .get(&pipe_read_id)
+        .and_then(|entry| entry.value().clone())
+    });
 
     if self.framing.is_manual() {
       return Ok((identity_blob, raw_zmtp_message));
@@ -846,6 +863,9 @@ impl ISocket for RouterSocket {
       self
         .pipe_to_identity_shared_map
         .insert(pipe_read_id, new_identity);
+      self
+        .pipe_peer_type
+        .insert(pipe_read_id, peer_socket_type_opt.clone());
     } else {
       tracing::warn!(
         handle = self.core.handle,
@@ -885,7 +905,25 @@ impl ISocket for RouterSocket {
       .router_map_for_send
       .remove_peer_by_read_pipe(pipe_read_id)
       .await;
-    self.pipe_to_identity_shared_map.remove(&pipe_read_id);
+    // What this peer has already delivered stays readable after it has gone: a finalized pipe
+    // keeps its identity, peer type and finalized mark (for receiving only) until the bounded
+    // list of departed pipes evicts it. A pipe that never finalized is torn down completely.
+    let was_finalized = self.pipe_finalized.contains_key(&pipe_read_id);
+    if was_finalized {
+      let evicted = {
+        let mut departed = self.departed_pipes.lock();
+        departed.push_back(pipe_read_id);
+        if departed.len() > 256 { departed.pop_front() } else { None }
+      };
+      if let Some(old) = evicted {
+        self.pipe_to_identity_shared_map.remove(&old);
+        self.pipe_peer_type.remove(&old);
+        self.pipe_finalized.remove(&old);
+      }
+    } else {
+      self.pipe_to_identity_shared_map.remove(&pipe_read_id);
+      self.pipe_peer_type.remove(&pipe_read_id);
+    }
 
     self.pipe_send_coordinator.remove_pipe(pipe_read_id).await;
 
@@ -906,10 +944,12 @@ impl ISocket for RouterSocket {
     // before its identity was resolved, so the messages can never be routed
     // with a real identity (ZMQ permits message loss on disconnect). Wake any
     // recv waiting on a finalize so it re-evaluates without this pipe.
-    self.pipe_finalized.remove(&pipe_read_id);
-    if let Some(dropped) = self.held_ingress.lock().remove(&pipe_read_id) {
-      if !dropped.is_empty() {
-        self.held_count.fetch_sub(dropped.len(), Ordering::AcqRel);
+    if !was_finalized {
+      self.pipe_finalized.remove(&pipe_read_id);
+      if let Some(dropped) = self.held_ingress.lock().remove(&pipe_read_id) {
+        if !dropped.is_empty() {
+          self.held_count.fetch_sub(dropped.len(), Ordering::AcqRel);
+        }
       }
     }
     self.identity_finalized_notify.notify_waiters();
